@@ -1,0 +1,25 @@
+//go:build verif
+
+// Contracts for the deductive verifier in /verif (gocv); comments only.
+
+package memdb
+
+//@ spec func mcmp(a bytes, b bytes) int
+//@ interface comparer.BasicComparer.Compare
+//@   pure
+//@   ensures result == mcmp(a, b)
+
+// C20: the in-memory table copies keys and values into its own arena; it neither keeps a reference to the
+// caller's buffers nor writes to them.
+//@ func (*DB).Put
+//@   props C20
+//@   safety off
+//@   requires !sameblock(key, p.kvData) && !sameblock(value, p.kvData) && len(key) <= 1099511627776 && len(value) <= 1099511627776 && len(p.kvData) <= 1099511627776
+//@   ensures [C20:arguments-not-retained] !sameblock(p.kvData, key) && !sameblock(p.kvData, value)
+//@   ensures [C20:arguments-not-modified] unchanged(key) && unchanged(value)
+//@ func (*DB).Delete
+//@   props C20
+//@   safety off
+//@   requires !sameblock(key, p.kvData)
+//@   ensures [C20:arguments-not-retained] !sameblock(p.kvData, key)
+//@   ensures [C20:arguments-not-modified] unchanged(key)
